@@ -2,12 +2,14 @@
 
 Lean: Props/C16.lean (date_bounds, no_presim_when_disabled, no_overlap_single, ids_unique,
 generate_sorted, convert_linear, unit_invariance (any Consistent table), rate_invariance,
-cap_respected(_dist), table obligations Units.*, seeds_collide_beyond_range, C16_partial,
+cap_respected(_dist), table obligations Units.*, seeds_collide_beyond_range, extension_seed_index,
+extension_preserves_existing, extension_distinct, C16_partial,
 C16_counterexample).  Generated/Units.lean and Generated/EmisSeed.lean are rewritten from /repo first.
 Tie: real Source.generate_emissions (np.random.binomial recorded, not altered) vs `drv_gen gen`;
 real gas_convert evaluated on exact rationals vs `drv_gen conv/gas`; real EmissionsSource.unit_conversion,
 EmissionsSourceSample / EmissionsSourceDist built by the real reader from generated emissions files in
-every unit vs `drv_gen uconv/sample/dist`; real gen_seed_emis vs `drv_gen seeds`.
+every unit vs `drv_gen uconv/sample/dist`; real gen_seed_emis vs `drv_gen seeds`; real gen_seed_emis + initialize_emissions chained over multi-step
+histories on one generator folder (np.random.seed recorded) vs `drv_gen init`.
 Oracle: every clause of the property evaluated directly on the implementation's outputs.
 """
 from __future__ import annotations
@@ -24,7 +26,7 @@ from harness import core
 from harness.extract import units as EX
 
 MANIFEST_ENTRY = {
-    "text": "Lean theorems over the generator model prove, for every pair of Bernoulli outcome lists, duration, multi-emission flag and pre-simulation setting: start dates within [start - duration, end] (date_bounds), none before the period when pre-simulation emissions are off (no_presim_when_disabled), starts of a single-emission source more than `duration` apart (no_overlap_single), ids 0..n-1 unique (ids_unique), pending list popped in strictly increasing start order (generate_sorted). Over exact rationals and the unit tables regenerated from unit_converter.py on every run: gas_convert is linear (convert_linear), converts any SI-written rate back to the same g/s value for every Consistent table (unit_invariance, rate_invariance), capped rates never exceed the converted maximum (cap_respected, cap_respected_dist with the table-positivity obligation), all 56 unit pairs convert with a positive factor; the current table is proved NOT consistent (seconds per year 31 540 000, exact drift 7884/7885: known finding F10b) and proved consistent once that entry is 365*86400; seeds drawn by randint(0,255) collide for certain beyond 255 simulations and may collide before (seeds_collide_beyond_range, seeds_distinct_counterexample: known finding F10c); C16_partial / C16_counterexample. Models are tied to the real Source.generate_emissions, gas_convert (run on exact rationals), EmissionsSource classes built by the real reader from generated emissions files in all 56 units, gen_seed_emis and initialize_emissions by differential correspondence on every run; each clause of the property is evaluated directly on the implementation outputs.",
+    "text": "Lean theorems over the generator model prove, for every pair of Bernoulli outcome lists, duration, multi-emission flag and pre-simulation setting: start dates within [start - duration, end] (date_bounds), none before the period when pre-simulation emissions are off (no_presim_when_disabled), starts of a single-emission source more than `duration` apart (no_overlap_single), ids 0..n-1 unique (ids_unique), pending list popped in strictly increasing start order (generate_sorted). Over exact rationals and the unit tables regenerated from unit_converter.py on every run: gas_convert is linear (convert_linear), converts any SI-written rate back to the same g/s value for every Consistent table (unit_invariance, rate_invariance), capped rates never exceed the converted maximum (cap_respected, cap_respected_dist with the table-positivity obligation), all 56 unit pairs convert with a positive factor; the current table is proved NOT consistent (seconds per year 31 540 000, exact drift 7884/7885: known finding F10b) and proved consistent once that entry is 365*86400; seeds drawn by randint(0,255) collide for certain beyond 255 simulations and may collide before (seeds_collide_beyond_range, seeds_distinct_counterexample: known finding F10c); after any history of fresh runs, extensions and smaller runs on one generator folder simulation i holds the scenario of emis_preseed_val[i], existing pickles are untouched by an extension and distinct seeds give distinct scenarios (extension_seed_index, extension_preserves_existing, extension_distinct); C16_partial / C16_counterexample. Models are tied to the real Source.generate_emissions, gas_convert (run on exact rationals), EmissionsSource classes built by the real reader from generated emissions files in all 56 units, gen_seed_emis and initialize_emissions (single runs and multi-step folder histories with the applied seed recorded per simulation number) by differential correspondence on every run; each clause of the property is evaluated directly on the implementation outputs.",
     "design_ref": "DESIGN.md 5.16",
     "note": "trusted: Lean kernel + propext/Classical.choice/Quot.sound; hand-written models tied by sampled correspondence; the ast extractor of the unit tables (cross-checked against the imported module on every run); float results of the rate-source classes are compared with the exact model inside a rounding envelope of 2^-40 relative (the function itself is compared exactly on rationals); non-SI units (pound, cubic feet, week, month, year) are taken as defined by the table, mscf as 1000 cubic feet; distributional correctness of the draws and of scipy/numpy is outside this check; 'different scenarios' is checked as distinct seeds + observed scenario inequality on non-degenerate configurations",
     "technique": "Lean 4 proofs over an executable generator / converter model + tables regenerated from source + differential correspondence with the real classes + direct oracle",
@@ -585,6 +587,87 @@ def run_seeds(ctx, G, M, tmp):
     # degenerate configuration for the record (not judged): production rate 0 gives equal, empty scenarios
 
 
+
+# ------------------------------------------------------------------------------------------------
+# part F: histories of runs on one generator folder (fresh, extension, smaller run)
+# ------------------------------------------------------------------------------------------------
+def history_oracle(ctx, M, steps, np_seed, res):
+    inp = {"kind": "history-case", "steps": [list(s) for s in steps], "np_seed": np_seed}
+    lines = []
+    for st in res:
+        lines.append(f"init [{','.join(map(str, st['seed_file']))}] {st['saved_before']} {int(st['fresh'])} {st['n']}")
+    model = M.run(lines)
+    for k, (st, ml) in enumerate(zip(res, model)):
+        ctx.evaluations += 1
+        il = "[" + ",".join(f"[{i},{'-' if sd is None else sd}]" for i, sd in st["trace"]) + f"] {st['saved_after']}"
+        if ml is not None and ml != il:
+            ctx.disagree("initialize_emissions(seed trace)", dict(inp, step=k), ml, il)
+        tag = "fresh" if st["fresh"] else "extension"
+        # (a) the seed applied before simulation i is the stored emis_preseed_val[i]
+        for i, sd in st["trace"]:
+            want = st["seed_file"][i] if i < len(st["seed_file"]) else None
+            if sd != want:
+                ctx.violate(f"C16:replicates:{tag}:seed-index",
+                            "the seed applied before generating a simulation number is not the seed stored for that number",
+                            dict(inp, step=k, simulation=i, seed_applied=sd, seed_stored=want, seed_file=st["seed_file"]))
+                break
+        # (c) a non-fresh run leaves the pickles of the existing simulation numbers untouched
+        if not st["fresh"]:
+            for i in range(st["saved_before"]):
+                if st["fps_before"].get(i) != st["fps_after"].get(i):
+                    ctx.violate("C16:replicates:extension:existing-scenario-changed",
+                                "extending the generator folder changed the scenario of an existing simulation number",
+                                dict(inp, step=k, simulation=i))
+                    break
+        # (b) all stored simulation numbers hold pairwise different scenarios (non-degenerate configuration)
+        seen = {}
+        for i in range(st["saved_after"]):
+            fp = st["fps_after"].get(i)
+            if fp is None:
+                ctx.violate("C16:replicates:missing-scenario", "a stored simulation number has no scenario file", dict(inp, step=k, simulation=i))
+                break
+            if fp in seen:
+                j = seen[fp]
+                if st["seed_file"][i] == st["seed_file"][j]:
+                    ctx.violate(SIG_SAME, "two simulation numbers receive the identical emission scenario (same seed)",
+                                dict(inp, step=k, simulations=[j, i], seed=st["seed_file"][i]))
+                else:
+                    ctx.violate(f"C16:replicates:{tag}:identical-scenarios-different-seeds",
+                                "two simulation numbers with different stored seeds receive the identical emission scenario",
+                                dict(inp, step=k, simulations=[j, i], seeds=[st["seed_file"][j], st["seed_file"][i]],
+                                     seed_file=st["seed_file"]))
+                break
+            seen[fp] = i
+        ctx.count("history:" + tag + (":writes" if st["trace"] else ":noop"))
+        ctx.nontrivial.add(("history", tag, min(st["saved_before"], 5), min(len(st["trace"]), 5), k))
+    ctx.traces += len(lines)
+
+
+def run_histories(ctx, G, M, tmp):
+    rng = ctx.rng
+    hists = [
+        [(1, False), (3, True)],
+        [(2, False), (4, True)],
+        [(4, False), (2, True), (6, True)],          # shrink, then raise
+        [(3, False), (3, True), (5, True), (9, True)],
+        [(2, False), (5, True), (3, False), (6, True)],   # a later fresh run (inputs changed) over an existing folder
+        [(1, False), (2, True), (3, True), (4, True)],
+    ]
+    for _ in range(ctx.pick(10, 150)):
+        h, first = [], True
+        for _ in range(rng.randint(2, 5)):
+            h.append((rng.randint(1, 12), (not first) and rng.random() < 0.85))
+            first = False
+        hists.append(h)
+    for k, steps in enumerate(hists):
+        np_seed = rng.randrange(2 ** 31)
+        gd = os.path.join(tmp, f"hist_{k}", "generator")
+        os.makedirs(os.path.dirname(gd))
+        res = G.run_history(steps, gd, SPECS, RATES, 60, True, np_seed)
+        history_oracle(ctx, M, steps, np_seed, res)
+    ctx.sample({"history": hists[2], "trace_last_step": res[-1]["trace"] if hists else None})
+
+
 UNITDEFS = None
 SEEDINFO = None
 RATES = None
@@ -626,7 +709,7 @@ def run(ctx):
                 "small + large (duration <= 500, N <= 900), Bernoulli outcomes recorded from the real run; converter: all "
                 "in-metric x increment pairs x fixed+random quantities (exact) + random full-argument calls incl. unknown "
                 "names and zero divisors; rate sources: random populations written in all 56 units through generated "
-                "emissions files; seeds: n_sim in {1,2,5,30,100,300,random}, growth and shrink of the seed file; "
+                "emissions files; seeds: n_sim in {1,2,5,30,100,300,random}, growth and shrink of the seed file; histories of 2-5 runs (fresh, extension N->M incl. N=1, shrink-then-raise, later fresh run) on one generator folder with np.random.seed recorded; "
                 "non-trivial = at least one emission / successful conversion / drawn rate, distinct by qualitative shape")
     u, s, drift = setup(ctx)
     if drift and ctx.quick:
@@ -649,6 +732,7 @@ def run(ctx):
         RATES = {"r": G.load_rate_sources(folder)["smp"]}
         run_generation(ctx, G, M, tmp)
         run_seeds(ctx, G, M, tmp)
+        run_histories(ctx, G, M, tmp)
     finally:
         shutil.rmtree(tmp, ignore_errors=True)
     ctx.assumptions.append("float results of the rate-source classes compared with the exact model inside a relative "
@@ -719,6 +803,16 @@ def replay(ctx, data):
         elif kind == "seed-case":
             M = Model(ctx)
             seed_case(ctx, G, M, tmp, "r", inp["first_n"], inp["np_seed"], inp.get("grow_to"))
+        elif kind == "history-case":
+            M = Model(ctx)
+            steps = [tuple(x) for x in inp["steps"]]
+            gd = os.path.join(tmp, "hist", "generator")
+            os.makedirs(os.path.dirname(gd))
+            res = G.run_history(steps, gd, SPECS, RATES, 60, True, inp["np_seed"])
+            for st in res:
+                print("run n=%d %s: seed file %s, (simulation, seed applied) %s" % (
+                    st["n"], "fresh" if st["fresh"] else "non-fresh", st["seed_file"], st["trace"]))
+            history_oracle(ctx, M, steps, inp["np_seed"], res)
         elif kind == "scenario-case":
             seeds = inp.get("seeds")
             if seeds is None:
